@@ -165,5 +165,13 @@ impl VoronoiCell {
     }
 }
 
+#[cfg(any(kani, meshless_voro_verif))]
+impl VoronoiCell {
+    /// Verification hook: a constructed cell as `from_convex_cell` records it (own index, zeroed integrals).
+    pub fn verif_raw(idx: usize) -> Self {
+        Self::init(DVec3::ZERO, DVec3::ZERO, 0., 0., idx)
+    }
+}
+
 #[cfg(test)]
 mod tests {}
